@@ -26,17 +26,20 @@ from .. import spec as S
 PID = "C14"
 LEVEL = "exploration"
 RULE = ("histories = sequence of 0..4 prior operations {construct, encode, encode twice} on documents of a "
-        "22-document pool (plain 3/5 columns, coloured x2, paginated, page_by, subline_by, grouped, raising "
-        "ValueError, multi-section x2, figure, explicit/inherited headers), optionally sharing every "
+        "~30-document pool (plain 3/5 columns, coloured, paginated, page_by, subline_by, grouped, raising "
+        "ValueError, multi-section x2, figure, explicit/inherited headers, near twins sharing border colours / "
+        "texts under other palettes and sizes, 12-13 colour palettes, explicit 'black'), optionally sharing every "
         "equal-valued component object (page, body, header, title, footnote, source) with an earlier document, "
         "followed by constructing and encoding a target; all histories of length <=1 (quick) / <=2 (thorough) "
-        "enumerated, longer ones sampled. non-trivial = >=1 prior operation; distinct by history hash")
+        "enumerated, longer ones sampled; plus edit histories: the target object is built and encoded with other "
+        "texts, its text components are then edited in place to the pool values and it is encoded again. non-trivial = >=1 prior operation; distinct by history hash")
 ASSUMPTIONS = ["a fresh `python -c` interpreter importing rtflite from the working tree defines the reference output",
                "sharing is only exercised between documents whose shared component has equal user-given values"]
 DECIDING = ["histories_run", "targets_compared", "encodes_observed", "df_snapshots_compared",
-            "fresh_interpreter_baselines", "shared_component_histories", "after_failed_encode_histories"]
+            "fresh_interpreter_baselines", "shared_component_histories", "after_failed_encode_histories",
+            "edit_in_place_histories"]
 FLOOR = {"quick": 1500, "thorough": 20000}
-EXHAUSTIVE_NOTE = {"quick": "all histories of length <=1 (22 docs x 3 ops x 22 targets x sharing on/off)",
+EXHAUSTIVE_NOTE = {"quick": "all histories of length <=1 (pool docs x 3 ops x pool targets x sharing on/off); all edit histories of length <=1",
                    "thorough": "all histories of length <=2 with sharing off, length <=1 with sharing on"}
 OPS = ["new", "enc", "enc2"]
 COMPONENTS = ["page", "body", "colheader", "title", "subline", "footnote", "source", "page_header", "page_footer"]
